@@ -184,13 +184,15 @@ def wordscale(prop, lines, rng, n):
                 if j == 0: t[i] = _hex(base)
                 else:
                     # related second/third pointer: a token-prefix, a token-suffix, a same-length sibling, or fresh
-                    cuts = [k for k in range(len(base)) if base[k:k + 1] == b"/"]
+                    cuts = [k for k in range(len(base)) if base[k:k + 1] == b"/"] or [0]
                     r = rng.random()
                     if r < 0.3: t[i] = _hex(base[:rng.choice(cuts)])
                     elif r < 0.5: t[i] = _hex(base[rng.choice(cuts):])
                     elif r < 0.7:
-                        sib = bytearray(base); k = rng.randrange(1, len(sib))
-                        if sib[k] == 0x61: sib[k] = 0x2e
+                        sib = bytearray(base)
+                        if len(sib) > 1:
+                            k = rng.randrange(1, len(sib))
+                            if sib[k] == 0x61: sib[k] = 0x2e
                         t[i] = _hex(bytes(sib))
                     else: t[i] = _hex(_rand_ptr(rng))
             if op == "split_at" and len(t) > 2: t[2] = str(rng.randint(0, len(base) + 1))
@@ -274,6 +276,7 @@ def tree_variants(line, rng, prop):
         big = [str(rng.randint(2, 9)).encode() + bytes(rng.choice(b"0123456789") for _ in range(rng.choice([19, 19, 20]))) for _ in range(2)]
         # … an overflowing digit run FOLLOWED by a non-digit (the reason is the character, not the overflow)
         big += [big[0] + rng.choice([b"x", b" ", b"+", "\u0663".encode()]), b"18446744073709551616a"]
+        big += ["\u0131".encode(), "1\u0130".encode(), "\u0132".encode()]      # code points whose low byte is an ASCII digit
         for tok in [b"256", b"299", b"999", b"18446744073709551616"] + big:
             if rng.random() < 0.5 or tok in big:
                 q = list(parts); q[pi] = "x" + (pb[:pb.rfind(b"/")] + b"/" + tok if b"/" in pb else b"/" + tok).hex(); out.append(" ".join(q))
